@@ -136,7 +136,7 @@ pub fn run(tier: &str) -> i32 {
     let cs = cases(nkeys, if thorough { 4 } else { 3 });
     // `-2data`: the same data given as two files (every file must get the merged verdicts); `-dir`: the parameter files in
     // a directory that also holds files of other kinds sorting before, between and after them
-    let modes = ["plain", "structured", "stdin", "payload-plain", "payload-structured", "plain-2data", "structured-2data", "plain-dir", "structured-dir", "plain-samename", "structured-samename", "plain-dotname", "structured-dotname", "junit", "sarif"];
+    let modes = ["plain", "structured", "stdin", "payload-plain", "payload-structured", "plain-2data", "structured-2data", "plain-dir", "structured-dir", "plain-samename", "structured-samename", "plain-dotname", "structured-dotname", "junit", "sarif", "plain-link", "structured-link", "plain-dirlink", "structured-dirlink"];
     // baseline: the pre-merged document (any key order gives the same verdicts: checked by using both orders)
     let all: Vec<usize> = (0..nkeys).collect();
     let n = cs.len() * modes.len();
@@ -176,7 +176,7 @@ pub fn run(tier: &str) -> i32 {
         let mut argv = sv(&["validate"]);
         let mut stdin = String::new();
         match mode {
-            "junit" | "sarif" | "plain" | "structured" | "plain-dir" | "structured-dir" | "plain-samename" | "structured-samename" | "plain-dotname" | "structured-dotname" => {
+            "junit" | "sarif" | "plain" | "structured" | "plain-dir" | "structured-dir" | "plain-link" | "structured-link" | "plain-dirlink" | "structured-dirlink" | "plain-samename" | "structured-samename" | "plain-dotname" | "structured-dotname" => {
                 argv.extend(vec!["-r".into(), rp.clone(), "-d".into(), put("c17/data.json", &data_txt)]);
             }
             "plain-2data" | "structured-2data" => {
@@ -192,7 +192,15 @@ pub fn run(tier: &str) -> i32 {
             }
         }
         let mut ptxts = vec![];
-        let dir_mode = mode.ends_with("-dir");
+        let dir_mode = mode.ends_with("-dir") || mode.ends_with("-dirlink");
+        // `-link`: every parameter file is named through a symbolic link; `-dirlink`: the directory holds links to files kept elsewhere
+        let link_to = |link: &str, target: &str| -> String {
+            let lp = std::path::Path::new(target).parent().unwrap().parent().unwrap().join(link);
+            std::fs::create_dir_all(lp.parent().unwrap()).ok();
+            let _ = std::fs::remove_file(&lp);
+            std::os::unix::fs::symlink(target, &lp).expect("symlink");
+            lp.to_string_lossy().to_string()
+        };
         if dir_mode {
             let d = crate::cli::reset_dir("c17/pd");
             for junk in ["a_notes.txt", "p0.md", "p1.json.bak", "zz.txt"] {
@@ -203,7 +211,14 @@ pub fn run(tier: &str) -> i32 {
         }
         for (pi, pk) in param_keys.iter().enumerate() {
             let t = obj(pk, if dup_param == Some(pi) { ov } else { None });
-            if dir_mode {
+            if mode.ends_with("-dirlink") {
+                let real = put(&format!("c17/real/p{}.json", pi), &t);
+                link_to(&format!("pd/p{}.json", pi), &real);
+            } else if mode.ends_with("-link") {
+                let real = put(&format!("c17/real/p{}.json", pi), &t);
+                argv.push("-i".into());
+                argv.push(link_to(&format!("l{}.json", pi), &real));
+            } else if dir_mode {
                 put(&format!("c17/pd/p{}.json", pi), &t);
             } else if mode.ends_with("-samename") {
                 // every parameter file is called params.json, each in its own directory
